@@ -132,6 +132,20 @@ def gen_cases(chk, n, table):
         m["given"] = [k]
         cases.append({"id": n + j, "cat": "background", "nuclide": ["Cs137+Ba137m", "Co60", "Bi214+Po214", "K40", "Tl208"][j], "seed": 314159 + j, "n": 7, "level": None, "mode": None,
                       "emin": None, "emax": None, "activity": None, "mdl": m, "extra": [], "bad": None, "basename_kind": "ok", "order": j})
+    # every published nuclide of both list files (read from the files, not from the library's accessors) once, in every run: the driver
+    # validates names against its own copy of the lists
+    k = 0
+    for nuc in bkg:
+        cases.append({"id": n + 1000 + k, "cat": "background", "nuclide": nuc, "seed": 2000 + k, "n": 2, "level": None, "mode": None, "emin": None, "emax": None, "activity": None,
+                      "mdl": None, "extra": [], "bad": None, "basename_kind": "ok", "order": k % 6})
+        k += 1
+    for nuc in dbd:
+        ok = [m for m in CHEAP_MODES if nuc in table and genmon.rule_accepts(table, nuc, 0, m)]
+        if not ok:
+            continue
+        cases.append({"id": n + 1000 + k, "cat": "dbd", "nuclide": nuc, "seed": 2000 + k, "n": 2, "level": 0, "mode": ok[0], "emin": None, "emax": None, "activity": None,
+                      "mdl": None, "extra": [], "bad": None, "basename_kind": "ok", "order": k % 6})
+        k += 1
     return cases
 
 
